@@ -38,6 +38,9 @@ def run(ctx):
     # frames under a non-heap storage policy (Storage.tla slice: warm-up sequences of stack / reusable / mtsafe storages)
     from checks import c19
     c19.alloc_replay(ctx)
+    # async results: a tracked owning result type through every delivery form (Async.tla PayloadIntact): no copy, no allocation
+    from checks import c04
+    c04.alloc_replay(ctx)
     # carrying up to three ready coroutines in a suspend point: SuspendPoint.tla's InlineNoAlloc, replayed
     try:
         from checks import c06
